@@ -272,7 +272,11 @@ Definition step (v : variant) (cfg : config) (s : sys) (e : event) : sys :=
       end
   | ESetMapping m x => mkSys (upd (s_db s) m x) (s_tun s) (s_rt s) (s_fwd s) (s_log s) (s_park s)
   | ESetRoute t x => mkSys (s_db s) (s_tun s) (upd (s_rt s) t x) (s_fwd s) (s_log s) (s_park s)
-  | ECloseBridge t => mkSys (s_db s) (upd (s_tun s) t None) (rt_remove cfg (s_rt s) t) (s_fwd s) (s_log s) (s_park s)
+  | ECloseBridge t =>
+      match s_tun s t with      (* runBridgeLifecycle of an existing bridge: out of the map, routing record removed *)
+      | Some _ => mkSys (s_db s) (upd (s_tun s) t None) (rt_remove cfg (s_rt s) t) (s_fwd s) (s_log s) (s_park s)
+      | None => s
+      end
   | EEndForward cr t =>
       mkSys (s_db s) (s_tun s) (s_rt s) (filter (fun p => negb (N.eqb (fst p) cr && N.eqb (snd p) t)) (s_fwd s)) (s_log s) (s_park s)
   | EResolve cr =>
